@@ -615,7 +615,6 @@ class RxPipeline(Elaboratable):
         m.d.comb += [
             bitstuff.i_valid.eq(nrzi.o_valid),
             bitstuff.i_data.eq(nrzi.o_data),
-            self.o_receive_error.eq(bitstuff.o_error)
         ]
 
         #
@@ -624,6 +623,15 @@ class RxPipeline(Elaboratable):
         m.submodules.shifter = shifter = RxShifter(width=8)
         past_o_pkt_active    = Signal()
         m.d.usb_io          += past_o_pkt_active.eq(detect.o_pkt_active)
+
+        # The bit-stuff remover flags a violation for a single 48MHz cycle; hold it until the next packet
+        # starts, so the (four times slower) UTMI side cannot miss it -- and ignore it outside of packets.
+        receive_error = Signal()
+        with m.If(detect.o_pkt_start):
+            m.d.usb_io += receive_error.eq(0)
+        with m.Elif(bitstuff.o_error & past_o_pkt_active):
+            m.d.usb_io += receive_error.eq(1)
+        m.d.comb += self.o_receive_error.eq(receive_error)
         m.d.comb += [
             shifter.reset.eq(detect.o_pkt_end),
             shifter.i_data.eq(bitstuff.o_data),
